@@ -17,7 +17,7 @@ HashU == UNION {[F -> {x, N(7)}] : F \in (SUBSET Flds) \ {{}}}
          \cup {(f :> MaxI), (f :> MinI), (f :> N(-5)) @@ (g :> N(5)), (f :> B("0.5")) @@ (g :> B("-1.25")), (f :> B(""))}
 ValU == {VHash(hh, 0) : hh \in HashU} \cup {VStr(x, 0), VList(<<x>>, 0)}
 Dbs0 == {d \in UNION {[K -> ValU] : K \in SUBSET Keys} : kb \in DOMAIN d => d[kb].ty # "hash" \/ d[kb].h \in [Flds -> {x, N(7)}] \cup {(f :> x)}}
-HashStates == {[InitServer({1}) EXCEPT !.dbs[0] = d] : d \in Dbs0}
+HashStates == {WithDb0(InitServer({1}), d) : d \in Dbs0}
 
 C(name, args) == <<B(name)>> \o args
 \* HINCRBYFLOAT on a field holding +-2^63 is numeric accuracy (float64 vs long double), not claimed
